@@ -20,7 +20,7 @@ TIME = {'quick': 110, 'thorough': 1500}
 
 @st.composite
 def cases(draw, tier='quick'):
-    case = draw(inf.est_cases(min_m=1, max_m=5, zeros=False, iters=(1, 20, 200)))
+    case = draw(inf.est_cases(min_m=1, max_m=5, zeros=False, iters=(1, 20, 200), max_attrs=4 if tier == 'quick' else 5, cap=256 if tier == 'quick' else 1024))
     attrs, shape = case['domain']['attrs'], case['domain']['shape']
     case['zeros'] = draw(inf.zero_specs(attrs, shape, case['witness'], allow_empty=draw(st.integers(0, 9)) == 0))
     case['warm_start'] = draw(st.booleans())
